@@ -32,10 +32,11 @@ const (
 	BIgnoredErrors           // make rejected calls (errors ignored), then behave
 	BNestedFail              // a nested MarshalEncode fails inside a struct; ignore it, close by hand, repeat a name
 	BNestedThenReset         // marshal a nested value whose type has its own MarshalJSONTo via MarshalEncode, then call Reset
+	BNonStringNames          // open an object and try to marshal empty containers where a member name is required
 	BNumKinds
 )
 
-var KindNames = []string{"ok", "error", "unsupported", "unsupported-after-use", "unsupported-after-open", "zero-values", "two-values", "open-container", "close-parent", "bad-bytes", "reenter", "reset", "panic", "ignored-errors", "nested-fail", "nested-then-reset"}
+var KindNames = []string{"ok", "error", "unsupported", "unsupported-after-use", "unsupported-after-open", "zero-values", "two-values", "open-container", "close-parent", "bad-bytes", "reenter", "reset", "panic", "ignored-errors", "nested-fail", "nested-then-reset", "non-string-names"}
 
 // Behaviour of one peer (by ID).
 type Behaviour struct {
@@ -212,6 +213,27 @@ func (e *Env) MarshalTo(method string, id int, enc *jsontext.Encoder) error {
 			enc.Reset(io.Discard)
 		}()
 		return err
+	case BNonStringNames:
+		if err := enc.WriteToken(jsontext.BeginObject); err != nil {
+			return err
+		}
+		// none of these may be accepted where a member name is expected
+		var emptyAny any = []any{}
+		json.MarshalEncode(enc, &emptyAny)
+		json.MarshalEncode(enc, []any{})
+		json.MarshalEncode(enc, map[string]int{})
+		json.MarshalEncode(enc, map[string]any(nil))
+		json.MarshalEncode(enc, []int{})
+		json.MarshalEncode(enc, struct{}{})
+		json.MarshalEncode(enc, 5)
+		json.MarshalEncode(enc, nil)
+		if err := enc.WriteToken(jsontext.String("k")); err != nil {
+			return err
+		}
+		if err := enc.WriteToken(jsontext.Int(1)); err != nil {
+			return err
+		}
+		return enc.WriteToken(jsontext.EndObject)
 	case BNestedFail:
 		entry := enc.StackDepth()
 		type inner struct {
